@@ -127,63 +127,6 @@ theorem bias_digit_count_criterion_witness :
     40 < Sup.binLen (-(2 ^ 39)) ∧ Sup.fitsSigned 40 (-(2 ^ 39)) = true := by decide +kernel
 
 
-/-! ## Repair C16-20: `constraint_alpha_valid` (LEAKY_RELU)
-
-The predicate is listed for `LeakyRelu` only on a tree that carries the repair (the lists of `Gen/Constraints.lean` are regenerated
-from the live objects); on a tree without it the predicate and its sentence are simply unused, so everything below is stated
-about the predicate itself and holds on both trees. -/
-
-/-- `f64GeZero` is Python's `x >= 0.0` on the binary64 bit pattern: not a NaN, and sign bit clear or the value is -0.0. -/
-theorem f64GeZero_iff (b : Nat) :
-    Sup.f64GeZero b = true ↔
-      ¬ ((b / 2 ^ 52) % 2048 = 2047 ∧ b % 2 ^ 52 ≠ 0) ∧
-      ((b / 2 ^ 63) % 2 = 0 ∨ ((b / 2 ^ 52) % 2048 = 0 ∧ b % 2 ^ 52 = 0)) := by
-  unfold Sup.f64GeZero
-  simp only
-  by_cases h1 : (b / 2 ^ 52) % 2048 = 2047 <;> by_cases h2 : b % 2 ^ 52 = 0 <;>
-    by_cases h3 : (b / 2 ^ 63) % 2 = 1 <;> by_cases h4 : (b / 2 ^ 52) % 2048 = 0 <;>
-    simp [h1, h2, h3, h4] <;> omega
-
-/-- **alpha_valid_iff** (every parameter set, every descriptor that has an IFM and a float `alpha` attribute): the model of
-    `constraint_alpha_valid` accepts exactly "IFM is int8 or uint8, or alpha >= 0". -/
-theorem alpha_valid_iff (P : Params) (d : OpDesc) (i : Tens) (b : Nat)
-    (hi : ifm d = some i) (ha : attr? d n!"alpha" = some (.flt b)) :
-    Sup.alpha_valid P d = .ok (i.dtype == n!"int8" || i.dtype == n!"uint8" || Sup.f64GeZero b) := by
-  unfold Sup.alpha_valid
-  rw [ha, hi]
-  rfl
-
-/-- the accepted LEAKY_RELU example with another IFM/OFM type and alpha (binary64 bit pattern) -/
-def lreluWith (dtype : Name) (bits tflags : Nat) (alpha : Nat) : OpDesc :=
-  { exLeakyRelu with
-    attrs := [(n!"alpha", .flt alpha)],
-    inputs := exLeakyRelu.inputs.map (Option.map fun t => { t with dtype := dtype, bits := bits, tflags := tflags }),
-    outputs := exLeakyRelu.outputs.map (Option.map fun t => { t with dtype := dtype, bits := bits, tflags := tflags }) }
-
-/-- the outcome of a constraint is `.ok b` (an `Except` has no `DecidableEq` instance) -/
-def okIs (r : R) (b : Bool) : Bool := match r with | .ok x => x == b | .error _ => false
-
-theorem okIs_iff (r : R) (b : Bool) : okIs r b = true ↔ r = .ok b := by
-  cases r <;> simp [okIs]
-
-/-- Non-vacuity on both sides of the rule (alpha -0.5 / -0.0 / 0.0 / 0.5 as binary64): the 16-bit operator with a negative alpha is
-    the only one rejected; through `supPreds` (the table the walk and the Spec's `evalBullet` use) and under the live parameters. -/
-example : okIs (evalIn supPreds liveParams n!"constraint_alpha_valid" (lreluWith n!"int16" 16 9 13826050856027422720)) false = true := by
-  decide +kernel
-example : okIs (evalIn supPreds liveParams n!"constraint_alpha_valid" (lreluWith n!"int16" 16 9 4602678819172646912)) true = true := by
-  decide +kernel
-example : okIs (evalIn supPreds liveParams n!"constraint_alpha_valid" (lreluWith n!"int16" 16 9 0)) true = true := by decide +kernel
-example : okIs (evalIn supPreds liveParams n!"constraint_alpha_valid" (lreluWith n!"int16" 16 9 9223372036854775808)) true = true := by
-  decide +kernel
-example : okIs (evalIn supPreds liveParams n!"constraint_alpha_valid" (lreluWith n!"int8" 8 9 13826050856027422720)) true = true := by
-  decide +kernel
-example : okIs (evalIn supPreds liveParams n!"constraint_alpha_valid" (lreluWith n!"uint8" 8 10 13826050856027422720)) true = true := by
-  decide +kernel
-/-- the Spec reads the sentence of the repaired report as this constraint (a `TFLiteSupportedOperators` one) -/
-example : readBullet n!"Alpha only allowed to be negative if IFM is int8 or uint8" = some (n!"constraint_alpha_valid", false) := by
-  decide +kernel
-
-
 /-! ## Pipeline level: every source operator is accounted for exactly once, where the report says
 
 `Spec/Placement.lean` computes, from the source file and the output file as the plain flatbuffer walk sees them, the
